@@ -574,3 +574,9 @@ _more("C19", "Added (C19-refs): bufferevent_private.refcnt is initialised once, 
              "(a second decrement site cannot know whether the deferred queue holds a reference).")
 _more("C20", "Added (C20-write-event): the socket write callback never removes the write event while output is left (it carries the write timeout); the decision table is C17's.")
 _more("C17", "Added: the socket write callback never removes the write event while output is left, for write low-water marks 0 and 64 (what is left would never be sent).")
+_more("C29", "Added (C29-query): evhttp_parse_query_impl evaluated on 21 query strings (in byte memory: it cuts a copy in place with strsep) x the four flag combinations yields exactly the pairs of "
+             "the documented splitter (conformant / NONCONFORMANT / LAST_VAL, keys compared without case), and refuses exactly what it refuses, leaving the list empty.",
+      "evaluation of the extracted query splitter on byte memory against a reference splitter (K6)")
+_more("C17", "Added (C17-pair-talk): be_pair_wants_to_talk as a truth table; be_pair_enable and be_pair_outbuf_cb hand waiting data over iff both sides are willing. "
+             "Added (C17-tls-loop): consider_reading triggers the read callback iff some do_read made progress and reads what the TLS library holds decrypted before returning; "
+             "consider_writing goes on while output is left and nothing blocks, and never removes the write event with output left.")
